@@ -113,6 +113,32 @@ SEEDS = {
  "C23-m4": ("C23", "solve_all on a search that exceeds the limit where an ancestor still has an untried cheap clause: an out-of-order answer is published before the timeout message", ["C23"]),
  "C24-m3": ("C24", "an older variable bound to a newer, still unbound variable, nothing with a higher id bound yet, then a built-in dereferences it (unchecked raw read past the end of the substitution set)", ["C24"]),
  "C24-m4": ("C24", "a cut directly inside a non-last alternative of a disjunction that then fails (a &mut kept live across the recursive call in the Or code; no native symptom)", ["C24"]),
+ # ---- third round: changes that only manifest at SIZE (the agents were told the small scope is checked) ----
+ "C01-m5": ("C01", "a clause or query with >= 9 distinct variables, the 9th or a later one used twice (8-entry inline variable map; the overflow map is written but never read)", ["C01", "C10"]),
+ "C01-m6": ("C01", ">= 5 consecutive goal arguments that are non-variables facing fresh head variables (4-entry batch of pending bindings drops the pair that finds it full)", ["C01", "C07", "C06"]),
+ "C02-m5": ("C02", "a cut that is the 16th goal of a body or deeper (ancestors collected in a 16-pointer array with zip: the outermost ones are never flagged)", ["C02"]),
+ "C02-m6": ("C02", "a predicate with >= 65 clauses, a cut followed by a failure among the first 64 (64-bit candidate mask; explicit flag test removed)", ["C02"]),
+ "C05-m5": ("C05", "a predicate with > 8 clauses queried with a bound first argument that matches only beyond a block of 8 non-matching clauses (u8 clause mask; 'no more' at a block boundary, an answer on the next request)", ["C05", "C01"]),
+ "C06-m5": ("C06", "terms nested 255 deep or chains of 256 variables (u8 recursion-depth counter with checked_add)", ["C06", "C08"]),
+ "C07-m5": ("C07", ">= 5 consecutive fresh left variables facing constants in one complex term (4-entry buffer); only the variable-left direction has the fast path", ["C07", "C06"]),
+ "C07-m6": ("C07", "an alias chain of >= 9 hops (8-entry array of passed ids in the alias walk)", ["C07", "C08"]),
+ "C08-m5": ("C08", "an alias chain through two bound variables whose ids are congruent mod 64 (visited-set bit mask with wrapping_shl), e.g. ids 1 and 65", ["C08", "C06"]),
+ "C10-m5": ("C10", "a clause with >= 9 distinct variables whose 9th occurs more than once (the entry that triggers the move from the inline store to the hash map is forgotten)", ["C10", "C01"]),
+ "C10-m6": ("C10", "two variable names of >= 17 bytes that share their first 16 bytes (renaming map keyed by a 16-byte prefix)", ["C10", "C01"]),
+ "C15-m5": ("C15", "a list text nested three deep with the same bracket kind and a sibling before the innermost term (depth counters replaced by flags)", ["C15", "C19"]),
+ "C15-m6": ("C15", "include/exclude with >= 5 surviving elements (4-slot inline array; the element that overflows it is dropped)", ["C15", "C17"]),
+ "C16-m5": ("C16", "append with >= 33 collected terms and a non-list argument after a list argument (unstable sort above the small-sort limit)", ["C16"]),
+ "C16-m6": ("C16", "a bound tail variable with an id >= 64 (cycle guard in a u64 bit mask: shift overflow panic in the test profile)", ["C16", "C15"]),
+ "C17-m5": ("C17", "include/exclude results of >= 5 elements come back out of order (inline part consed before the overflow part)", ["C17", "C15"]),
+ "C17-m6": ("C17", "a functor prefix* pattern of >= 17 characters (16-character stack buffer drops the trailing *)", ["C17"]),
+ "C18-m5": ("C18", "a goal with 9 brackets open at once (eight-slot parse stack without a capacity check: index out of bounds)", ["C18"]),
+ "C18-m6": ("C18", "a goal text longer than 40 characters with a bracket fault in its last 19 characters (error-message excerpt sliced past the end)", ["C18"]),
+ "C19-m5": ("C19", "a body goal with 5 brackets open at once (four-entry inline parse stack silently drops the fifth)", ["C19", "C18"]),
+ "C19-m6": ("C19", "about 100 infix-arithmetic terms parsed in one thread (depth guard not decremented on the infix path; afterwards every parse is rejected)", ["C19", "C20"]),
+ "C21-m5": ("C21", "a file of >= 21 rules with interleaved predicates (sort_unstable_by on the predicate key: clause order lost above the insertion-sort limit)", ["C21"]),
+ "C21-m6": ("C21", "a source file longer than 8192 bytes (line assembled across a buffer refill is never cleared: later rules duplicated or lost)", ["C21"]),
+ "C22-m5": ("C22", "a query of arity >= 8 (or nested 3 deep at arity 3) constructed before another query and run after it (8-entry work list in max_var_id underestimates the ids in use)", ["C22"]),
+ "C22-m6": ("C22", "about 65 536 query epochs in one process, i.e. 22 000 to 65 535 earlier queries (epoch and stop request packed into 16 bits each)", ["C22"]),
 }
 
 def sh(cmd, cwd=None, env=None, timeout=None):
